@@ -39,12 +39,40 @@ def string_cases(ctx, binp, maxlen):
     ctx.add_part(replayed="string cases", cases=len(hcases), steps=len(hcases) * 9, failing=bad)
 
 
+def chartype_cases(ctx, binp):
+    """The whole code space of planes 0-2 (all documented ranges and both sides of each of their ends) plus chunks of the
+    higher planes: one sentence per chunk of 128 consecutive scalar values."""
+    chunk = 128
+    ks = set(range(0, 0x30000 // chunk)) | {0x30000 // chunk, 0x31350 // chunk, 0xE0000 // chunk, 0xE0100 // chunk, 0x10FF80 // chunk}
+    cfg = vlib.cfg_text(constants={"Chunk": chunk, "Chunks": ks}, invariants=["Sane", "Emit"])
+    res = vlib.tlc("C05-gen-chartypes", "Gen_CharTypes", cfg)
+    if res["violated"]:
+        raise vlib.ToolError("Gen_CharTypes: sanity invariant violated")
+    cases = vlib.nonempty(vlib.cases_from(res["out"]), "Gen_CharTypes")
+    ctx.add_tlc(res, f"Gen_CharTypes: {len(cases)} sentences covering every scalar value of planes 0-2 and samples of the higher planes")
+    hcases = []
+    for i, c in enumerate(cases):
+        ops = [{"op": "new_raw", "s": c["s"]}, {"op": "up_tok", "s": [97, 47, 88]}, {"op": "up_raw", "s": c["s"]}]
+        hcases.append({"id": i, "ops": ops, "expect": [c["new_raw"], None, c["up_raw"]], "opts": {"writers": False},
+                       "key": "chunk@%X" % c["s"][0]})
+        if len(set(c["new_raw"][0]["types"])) > 1:
+            ctx.nontriv(("ct", c["s"][0]))
+    ctx.evaluations += 2 * len(hcases)
+
+    def sig(c, fail):
+        return f"C05:chartypes:{c['key']}:{fail[1]}"
+    bad = vlib.check_histories(ctx, binp, "C05-chartypes", hcases, sigfn=sig)
+    ctx.add_part(replayed="character-type chunks", cases=len(hcases), failing=bad)
+
+
 def run(ctx):
     binp = vlib.build_harness()
     ctx.rule = ("every string over {a, あ, space, /, \\, -, |, NUL} up to the length bound through 3 constructors "
-                "and 3 updates (updates applied to a tagged sentence); non-trivial = string accepted by the "
+                "and 3 updates (updates applied to a tagged sentence); every scalar value of planes 0-2 (+ samples above) through the raw "
+                "constructor/update with the character types of the documented table; non-trivial = string accepted by the "
                 "tokenized or partial reader")
     string_cases(ctx, binp, 5 if ctx.quick else 6)
+    chartype_cases(ctx, binp)
     # histories: every call sequence up to the depth over the operation pool; C05 judges the state after every
     # update / constructor / reset_tags call (the prediction-related steps are judged by C08)
     L.mutant(ctx)
